@@ -32,6 +32,9 @@ def offset_slice_indices_lsb0(key: slice, length: int) -> slice:
         if new_stop < 0:
             new_stop = None
     else:
+        if stop <= start:
+            # An empty slice. It still marks a position (used by slice assignment) counted from the other end.
+            return slice(length - start, length - start, key.step)
         first_element = start
         # The last element will usually be stop - 1, but needs to be adjusted if step != 1.
         last_element = start + ((stop - 1 - start) // step) * step
